@@ -65,6 +65,8 @@ class Env:
             return self.ts.Type()
         if k == "t":
             s = ty[2]
+            if len(ty) > 3:  # the shape argument in one of its simple spellings (list, '' for None, ...)
+                return self.ts.Tensor(self.spell[ty[1]], spell_shape(self, s, ty[3])[0])
             return self.ts.Tensor(self.spell[ty[1]], None if s is None else tuple(s))
         if k == "s":
             return self.ts.Sequence(self.mk(ty[1]))
@@ -230,6 +232,28 @@ def check_roundtrip(env: Env, ty):
         return ("roundtrip:raises", f"{t!r}: {type(e).__name__}: {e}")
     if back != t or hash(back) != hash(t) or not sub(back) or not back._subtype(t):
         return (f"roundtrip:{diff_kind(env, t, back)}", f"{t!r} -> ONNX -> {back!r} (equal={back == t})")
+    # identity judged on the public content too (constructor, element type, shape), not only by `==`:
+    # an `==` that is too coarse must not hide a type that came back different
+    try:
+        same = env.enc(back) == env.enc(t)
+    except Exception:  # noqa: BLE001
+        same = True
+    if not same:
+        return (f"roundtrip:{diff_kind(env, t, back)}", f"{t!r} -> ONNX -> {back!r}: `==` holds but the two differ in content")
+    return None
+
+
+def check_equality(env: Env, a, b):
+    """Canonical representation: two types are equal (and equally hashed) exactly when they are the same
+    ONNX type - same nesting, element type and shape (dimension by dimension, names included)."""
+    ta, tb = env.mk(a), env.mk(b)
+    same = env.enc(ta) == env.enc(tb)
+    eq = bool(ta == tb)
+    if eq != same:
+        return (f"equality:{'distinct-types-equal' if eq else 'same-type-unequal'}:{aspect(a, b)}",
+                f"{ta!r} == {tb!r} is {eq}, but they are {'the same' if same else 'different'} ONNX types")
+    if same and hash(ta) != hash(tb):
+        return ("equality:equal-types-hash-differently", f"{ta!r} and {tb!r}")
     return None
 
 
@@ -319,48 +343,172 @@ def check_subtype(env: Env, a, b):
     return None
 
 
-def check_broadcast(env: Env, a, b, np_cache=None):
+# spellings of one abstract shape. kind 'shape' = a Shape object, 'simple' = the simple format
+# (`Union[Shape, SimpleShape]` arguments accept both). 'list' is accepted by the code but not declared
+# (SimpleShape is a tuple): a deviation under it alone is reported as a broken correspondence only.
+SHAPE_SPELLINGS = ["Shape", "Shape(dims)", "tensor._shape", "from_simple(to_simple)", "tuple", "tensor.shape",
+                   "argument.shape", "empty-str", "list"]
+SELF_SPELLINGS = ["Shape", "Shape(dims)", "tensor._shape"]
+UNDECLARED_SPELLINGS = {"list"}
+
+
+class NotApplicable(Exception):
+    pass
+
+
+def spell_shape(env: Env, s, how):
+    """The abstract shape `s` (None = unknown rank | list of int / str / None) written as `how`.
+    -> (python object, 'shape' | 'simple')"""
     np = env.np
-    Shape, ShapeError = internal(env.sh, "Shape"), internal(env.sh, "ShapeError")
-    sa = internal(Shape, "from_simple")(None if a is None else tuple(a))
-    sb = internal(Shape, "from_simple")(None if b is None else tuple(b))
-    bc = internal(sa, "broadcast")
+    tup = None if s is None else tuple(s)
+    Shape = internal(env.sh, "Shape")
+    if how == "Shape":
+        return internal(Shape, "from_simple")(tup), "shape"
+    if how == "Shape(dims)":
+        Constant, Unknown = internal(env.sh, "Constant"), internal(env.sh, "Unknown")
+        if tup is None:
+            return Shape(None), "shape"
+        return Shape(tuple(Constant(d) if isinstance(d, int) else (Unknown(d) if isinstance(d, str) else Unknown()) for d in tup)), "shape"
+    if how == "tensor._shape":
+        return internal(env.ts.Tensor(np.float32, tup), "_shape"), "shape"
+    if how == "from_simple(to_simple)":
+        return internal(Shape, "from_simple")(internal(Shape, "from_simple")(tup).to_simple()), "shape"
+    if how == "tuple":
+        return tup, "simple"
+    if how == "tensor.shape":  # in particular: Tensor(dtype).shape is None = unknown rank
+        return env.ts.Tensor(np.int64, tup).shape, "simple"
+    if how == "argument.shape":
+        with warnings.catch_warnings():
+            warnings.simplefilter("ignore")
+            return env.spox.argument(env.ts.Tensor(np.float32, tup)).unwrap_tensor().shape, "simple"
+    if how == "empty-str":  # '' is the other spelling of the anonymous dimension
+        if tup is None or None not in tup:
+            raise NotApplicable(how)
+        return tuple("" if d is None else d for d in tup), "simple"
+    if how == "list":
+        if tup is None:
+            raise NotApplicable(how)
+        return list(tup), "simple"
+    raise ValueError(how)
+
+
+def np_broadcast(np, *shapes):
     try:
-        c = internal(bc(sb), "to_simple")()
-        raised = False
+        return tuple(int(v) for v in np.broadcast_shapes(*shapes))
+    except ValueError:
+        return None
+
+
+def concretisations(s, other_rank, dom=CONC):
+    """Concrete runtime shapes conforming to `s`. Unknown rank: every rank up to one more than the other
+    operand's (a claimed rank is contradicted by a longer operand of ones)."""
+    if s is None:
+        return conc_shapes(min(3, other_rank + 1))
+    return [tuple(p) for p in itertools.product(*[[d] if isinstance(d, int) else dom for d in s])]
+
+
+def call_broadcast(env: Env, a, b, spell="Shape", self_spell="Shape", method="broadcast"):
+    """-> ('ok', simple result) | ('raised', exception class name); for can_broadcast ('ok', bool)."""
+    ShapeError = internal(env.sh, "ShapeError")
+    sa = spell_shape(env, a, self_spell)[0]
+    ob = spell_shape(env, b, spell)[0]
+    f = internal(sa, method)
+    try:
+        r = f(ob)
     except ShapeError:
-        c, raised = None, True
+        return ("raised", "ShapeError")
+    except NotObservable:
+        raise
+    except Exception as e:  # noqa: BLE001
+        return ("raised", type(e).__name__)
+    if method == "can_broadcast":
+        return ("ok", bool(r))
+    c = internal(r, "to_simple")()
+    return ("ok", None if c is None else list(c))
+
+
+def check_broadcast(env: Env, a, b, np_cache=None, spell="Shape", self_spell="Shape", method="broadcast"):
+    """The statement about static broadcasting on ONE pair of abstract shapes, the operand written in the
+    given spelling: numpy's shape on known dims; a claim no conforming runtime values contradict;
+    ShapeError (can_broadcast False) only if no conforming values broadcast."""
+    np = env.np
+    res = call_broadcast(env, a, b, spell, self_spell, method)
+    can = method == "can_broadcast"
+    raised = res[0] == "raised" or (can and res[1] is False)
+    c = None if (raised or can) else res[1]
+    claims = not raised and not can
+    shown = res[1] if (res[0] == "raised" or can) else c
+    call = f"Shape{None if a is None else tuple(a)}.{method}({spell_shape(env, b, spell)[0]!r})"
 
     def npb(x, y):
-        if np_cache is not None:
+        if np_cache is not None and (x, y) in np_cache:
             return np_cache[(x, y)]
-        try:
-            return tuple(np.broadcast_shapes(x, y))
-        except ValueError:
-            return None
-
-    def concs(s):
-        if s is None:  # unknown rank: every rank up to 2 (more is not needed to contradict a claim of "unknown")
-            return conc_shapes(1)
-        return [tuple(p) for p in itertools.product(*[[d] if isinstance(d, int) else CONC for d in s])]
+        return np_broadcast(np, x, y)
 
     known = a is not None and b is not None and all(isinstance(d, int) for d in list(a) + list(b))
     if known:
         want = npb(tuple(a), tuple(b))
-        if raised != (want is None) or (not raised and tuple(c) != want):
-            return ("broadcast:known-dims-differ-from-numpy",
-                    f"Shape{tuple(a)}.broadcast({tuple(b)}) = {'ShapeError' if raised else c}, numpy: {want}")
+        if raised != (want is None) or (claims and tuple(c) != want):
+            return ("broadcast:known-dims-differ-from-numpy", f"{call} = {shown}, numpy: {want}")
         return None
-    for sa in concs(a):
-        for sb in concs(b):
+    ra = 0 if a is None else len(a)
+    rb = 0 if b is None else len(b)
+    for sa in concretisations(a, rb):
+        for sb in concretisations(b, ra):
             s = npb(sa, sb)
             if raised:
                 if s is not None:
                     return ("broadcast:raises-though-values-broadcast",
-                            f"{a} x {b} raises ShapeError but conforming values {sa} x {sb} broadcast to {s}")
-            elif s is not None and not conforms_dims(s, None if c is None else list(c)):
+                            f"{call} {'raises ' + str(shown) if res[0] == 'raised' else 'is False'} but conforming values {sa} x {sb} broadcast to {s}")
+            elif claims and s is not None and not conforms_dims(s, None if c is None else list(c)):
                 return ("broadcast:claims-contradicted-dimension",
-                        f"{a} x {b} -> {c}, but conforming values {sa} x {sb} broadcast to {s}")
+                        f"{call} -> {c}, but conforming values {sa} x {sb} broadcast to {s}")
+    return None
+
+
+def broadcast_arity(env: Env):
+    """How many operands Shape.broadcast takes besides self: (min, max | None = variadic)."""
+    import inspect
+
+    sig = inspect.signature(internal(internal(env.sh, "Shape"), "broadcast"))
+    ps = list(sig.parameters.values())[1:]
+    lo = sum(1 for p in ps if p.kind in (p.POSITIONAL_ONLY, p.POSITIONAL_OR_KEYWORD) and p.default is p.empty)
+    if any(p.kind == p.VAR_POSITIONAL for p in ps):
+        return lo, None
+    return lo, sum(1 for p in ps if p.kind in (p.POSITIONAL_ONLY, p.POSITIONAL_OR_KEYWORD))
+
+
+def check_broadcast_n(env: Env, shapes, spells, method="broadcast"):
+    """Several operands at once (only when the signature takes them): numpy broadcasts all of them."""
+    np = env.np
+    ShapeError = internal(env.sh, "ShapeError")
+    me = spell_shape(env, shapes[0], "Shape")[0]
+    args = [spell_shape(env, s, h)[0] for s, h in zip(shapes[1:], spells)]
+    can = method == "can_broadcast"
+    try:
+        r = internal(me, method)(*args)
+        raised = (r is False) if can else False
+        c = None if can else internal(r, "to_simple")()
+        shown = r if can else c
+    except ShapeError:
+        raised, c, shown = True, None, "ShapeError"
+    except Exception as e:  # noqa: BLE001
+        raised, c, shown = True, None, type(e).__name__
+    claims = not raised and not can
+    call = f"Shape{None if shapes[0] is None else tuple(shapes[0])}.{method}({', '.join(repr(x) for x in args)})"
+    top = max([0] + [len(s) for s in shapes if s is not None])
+    doms = [concretisations(s, top, dom=[1, 2, 3]) for s in shapes]
+    known = all(s is not None and all(isinstance(d, int) for d in s) for s in shapes)
+    for conc in itertools.product(*doms):
+        s = np_broadcast(np, *conc)
+        if known:
+            if raised != (s is None) or (claims and tuple(c) != s):
+                return ("broadcast:known-dims-differ-from-numpy", f"{call} = {shown}, numpy: {s}")
+            return None
+        if raised and s is not None:
+            return ("broadcast:raises-though-values-broadcast", f"{call} gives {shown} but conforming values {conc} broadcast to {s}")
+        if claims and s is not None and not conforms_dims(s, None if c is None else list(c)):
+            return ("broadcast:claims-contradicted-dimension", f"{call} -> {c}, but conforming values {conc} broadcast to {s}")
     return None
 
 
@@ -470,6 +618,28 @@ def check_elem_code(env: Env, code):
     return None
 
 
+def check_cast_spelling(env: Env, name):
+    """Another public route by which a dtype-like becomes a type: `cast(x, to=<spelling>)` must be typed
+    exactly like `Tensor(<spelling>)` (the canonical type of the ONNX element type). -> None | (key, what) | 'refused'"""
+    import spox.opset.ai.onnx.v17 as op
+    from spox import argument
+
+    sp = env.spell[name]
+    want = env.ts.Tensor(sp, (2,))
+    with warnings.catch_warnings():
+        warnings.simplefilter("ignore")
+        x = argument(env.ts.Tensor(env.np.float32 if want.dtype != env.np.dtype("float32") else env.np.int32, (2,)))
+        try:
+            y = op.cast(x, to=sp)
+        except Exception as e:  # noqa: BLE001
+            return f"refused: {type(e).__name__}"
+    if y.type is None:
+        return "refused: untyped"
+    if y.type != want or hash(y.type) != hash(want):
+        return ("spelling-unequal:cast", f"cast(x, to={name}) is typed {y.type!r}; Tensor({name}, (2,)) is {want!r}")
+    return None
+
+
 def check_elem_distinct(env: Env, c1, c2):
     """Two different ONNX element types must give unequal, mutually incompatible spox types."""
     names = {int(v): k for k, v in env.onnx.TensorProto.DataType.items()}
@@ -493,11 +663,15 @@ CHECKS = {
     "roundtrip_public": lambda env, c: check_roundtrip_public(env, c["type"]),
     "elem_code": lambda env, c: check_elem_code(env, c["code"]),
     "elem_distinct": lambda env, c: check_elem_distinct(env, c["c1"], c["c2"]),
+    "cast_spelling": lambda env, c: (lambda r: r if isinstance(r, tuple) else None)(check_cast_spelling(env, c["name"])),
     "dim_domain": lambda env, c: check_dim_domain(env, c["probe"])[1],
     "spelling": lambda env, c: check_spelling_pair(env, c["s1"], c["s2"], None if c["shape"] is None else tuple(c["shape"])),
     "refusal": lambda env, c: check_refusal(env, c["name"], c["defined"]),
     "subtype": lambda env, c: check_subtype(env, c["a"], c["b"]),
-    "broadcast": lambda env, c: check_broadcast(env, c["a"], c["b"]),
+    "equality": lambda env, c: check_equality(env, c["a"], c["b"]),
+    "broadcast": lambda env, c: check_broadcast(env, c["a"], c["b"], None, c.get("spell", "Shape"),
+                                                c.get("self_spell", "Shape"), c.get("method", "broadcast")),
+    "broadcast_n": lambda env, c: check_broadcast_n(env, c["shapes"], c["spells"], c.get("method", "broadcast")),
     "inline": lambda env, c: check_inline_boundary(env, c["a"], c["b"]),
 }
 
@@ -521,6 +695,24 @@ def run(ck: core.Check):
     }
     for msg in table.get("unobservable", []):
         ck.broken("correspondence", "C13 element-type functions not observable", msg)
+    # inventory of the type layer (classes, deciding overrides, decorators) -> obligation type_layer_inventory;
+    # digests of the covered functions vs the committed baseline: a changed function body escalates the sweep
+    source_changed = []
+    try:
+        import json as _json
+        from pathlib import Path
+
+        from translator import type_overrides
+
+        inv = type_overrides.generate()
+        base = _json.loads((Path(__file__).resolve().parent.parent / "c13_source_baseline.json").read_text())["digests"]
+        source_changed = sorted(k for k in set(base) | set(inv["digests"]) if base.get(k) != inv["digests"].get(k))
+        ck.cov["type_layer_inventory"] = {"classes": [c[0] for c in inv["classes"]], "functions_digested": len(inv["digests"]),
+                                          "changed_since_baseline": source_changed}
+        if source_changed:
+            ck.notes.append(f"covered functions differ from the committed baseline: {source_changed} - sweeping with the thorough bounds")
+    except Exception as e:  # noqa: BLE001
+        ck.broken("generated", "C13 type-layer inventory", f"{type(e).__name__}: {e}")
     ck.lean(["SpoxModel.Props.C13"], audit="SpoxModel.Audit.C13")
     if ck.thorough:
         ck.leanchecker(["SpoxModel.Props.C13"])
@@ -528,8 +720,8 @@ def run(ck: core.Check):
     env = Env(table)
     rng = ck.rng
     np = env.np
-    R = ck.pick(2, 3)  # rank bound of the exhaustive tensor sweep
-    RN = ck.pick(1, 2)  # rank bound under nestings
+    R = 3 if source_changed else ck.pick(2, 3)  # rank bound of the exhaustive tensor sweep
+    RN = 2 if source_changed else ck.pick(1, 2)  # rank bound under nestings
     E = ["cls:numpy.float32", "cls:numpy.int64"]
     shapes = shapes_upto(R)
     nshapes = shapes_upto(RN)
@@ -608,6 +800,28 @@ def run(ck: core.Check):
                                {"check": "spelling", "s1": s1, "s2": s2, "shape": None if shape is None else list(shape)})
             ck.count(("spelling-group", code), len(names))
         ck.cov["spelling_pairs_compared"] = n_pairs
+        # the same spellings through another public entry point for dtype-likes (operator attributes)
+        cast_stats = {"typed": 0, "refused": 0}
+        refused_by_code = {}
+        for code, names in sorted(by_code.items()):
+            for nm in names:
+                try:
+                    res = check_cast_spelling(env, nm)
+                except Exception as e:  # noqa: BLE001
+                    res = f"refused: {type(e).__name__}"
+                ck.count(("cast-spelling", nm))
+                if isinstance(res, tuple):
+                    ck.failure(f"{res[0]}:{code_name.get(code, code)}", res[1], {"check": "cast_spelling", "name": nm})
+                elif res is None:
+                    cast_stats["typed"] += 1
+                else:
+                    cast_stats["refused"] += 1
+                    refused_by_code.setdefault(code, []).append(nm)
+            # a code for which some spellings are typed and others refused: the route depends on the spelling
+            if code in refused_by_code and len(refused_by_code[code]) < len(names):
+                ck.broken("correspondence", "C13 cast(to=...) accepts some spellings of an element type and refuses others",
+                          f"{code_name.get(code, code)}: refused {refused_by_code[code][:5]}")
+        ck.cov["cast_spellings"] = cast_stats
         if len(by_code) < 10:
             ck.broken("generator", "C13 spelling table", f"only {len(by_code)} accepted element types")
 
@@ -716,6 +930,26 @@ def run(ck: core.Check):
             desc.append(None if leaf[0] == "any" else (w, uni.mask(codes[leaf[1]], leaf[2])))
         state["desc"] = desc
 
+    def facet_equality():
+        """`==` / `hash` over all ordered pairs of the bounded type domain vs sameness of the content."""
+        real_types = [env.mk(t) for t in types]
+        encs = [repr(env.enc(t)) for t in real_types]
+        hs = [hash(t) for t in real_types]
+        n_bad = 0
+        for i in range(n):
+            ti, ei = real_types[i], encs[i]
+            for j in range(n):
+                eq = ti == real_types[j]
+                if eq != (ei == encs[j]) or (eq and hs[i] != hs[j]):
+                    n_bad += 1
+                    if n_bad <= 20:
+                        bad = check_equality(env, types[i], types[j])
+                        if bad:
+                            ck.failure(bad[0], bad[1], {"check": "equality", "a": types[i], "b": types[j]})
+        ck.count(None, n * n)
+        ck.cov["equality_pairs"] = n * n
+
+    guard("type equality sweep", facet_equality)
     guard("_subtype sweep", facet_subtype)
     guard("common-value universe", facet_common_value)
 
@@ -845,6 +1079,165 @@ def run(ck: core.Check):
 
     guard("Shape.broadcast vs numpy", facet_broadcast_oracle)
 
+
+    # ---------------------------------------------------------------- operand spellings (simple format), both orders, arity
+    sp_stats = {"calls": 0, "spelling_dependent": 0, "model_mismatches": 0, "tensor_spellings": 0}
+
+    def facet_shape_spellings():
+        """Every `Union[Shape, SimpleShape]` argument with every spelling of the same abstract shape - in
+        particular `None` / `Tensor(dtype).shape` = unknown rank: the answer must be the one for the Shape
+        object. All ordered pairs (so both operand orders), broadcast and can_broadcast."""
+        base = state["real_bc"]
+        objs = {}
+        for j, b in enumerate(shapes):
+            for how in SHAPE_SPELLINGS:
+                try:
+                    objs[(j, how)] = spell_shape(env, b, how)
+                except NotApplicable:
+                    pass
+        selfs = {(i, how): spell_shape(env, a, how)[0] for i, a in enumerate(shapes) for how in SELF_SPELLINGS}
+        ShapeError = internal(env.sh, "ShapeError")
+        items, reals, where = [], [], []
+        bad_seen = set()
+        # quick tier: ranks <= 2 (also when the sweep itself was escalated to rank 3)
+        sel = [i for i, sh in enumerate(shapes) if ck.thorough or sh is None or len(sh) <= 2]
+        for i in sel:
+            a = shapes[i]
+            for j in sel:
+                b = shapes[j]
+                want = base[i * m + j]
+                for k, how in enumerate(SHAPE_SPELLINGS):
+                    if (j, how) not in objs or (how == "Shape" and (i + j) % 3 == 0):
+                        continue
+                    self_how = SELF_SPELLINGS[(i + j + k) % 3]
+                    me = selfs[(i, self_how)]
+                    ob, kind = objs[(j, how)]
+                    try:
+                        c = me.broadcast(ob).to_simple()
+                        got = [None if c is None else list(c)]
+                    except ShapeError:
+                        got = "ShapeError"
+                    except Exception as e:  # noqa: BLE001
+                        got = type(e).__name__
+                    try:
+                        can = bool(me.can_broadcast(ob))
+                    except Exception as e:  # noqa: BLE001
+                        can = type(e).__name__
+                    sp_stats["calls"] += 2
+                    if ck.thorough or how != "Shape(dims)" or (i + j) % 4 == 0:
+                        enc = ob.to_simple() if kind == "shape" else ob
+                        items.append([a, [kind, None if enc is None else list(enc)]])
+                        reals.append({"bc": got, "can": can})
+                        where.append((a, b, how))
+                    for method, dev in (("broadcast", got != want), ("can_broadcast", can is not (want != "ShapeError"))):
+                        if not dev:
+                            continue
+                        sp_stats["spelling_dependent"] += 1
+                        found = check_broadcast(env, a, b, np_cache, how, self_how, method)
+                        case = {"check": "broadcast", "a": a, "b": b, "spell": how, "self_spell": self_how, "method": method}
+                        if found and how not in UNDECLARED_SPELLINGS:
+                            ck.failure(found[0], found[1] + f" [operand written as {how}; as a Shape object the answer is {want}]", case)
+                        elif (method, how) not in bad_seen:
+                            bad_seen.add((method, how))
+                            ck.broken("correspondence", "C13 the answer depends on the spelling of the operand",
+                                      f"Shape{a}.{method}({ob!r}) [{how}] = {got if method == 'broadcast' else can}; with the Shape object: {want}")
+        ck.count(None, sp_stats["calls"])
+        for how in SHAPE_SPELLINGS:
+            ck.count(("shape-spelling", how), 0)
+        if drv:
+            out = drv.ask_many("C13", [{"op": "bcs", "items": items}])[0]
+            if "error" in out:
+                note("bc", str(out))
+            else:
+                for (a, b, how), x, y in zip(where, out["bcs"], reals):
+                    if x != y:
+                        sp_stats["model_mismatches"] += 1
+                        note("bc", f"Shape{a}.broadcast({b} written as {how}): model {x} real {y}")
+                        if mism["bc"] > 3:
+                            break
+            # maybe_rank / rank
+            real_r = []
+            for i, a in enumerate(shapes):
+                me = selfs[(i, "Shape")]
+                mr = me.maybe_rank
+                try:
+                    rk = me.rank
+                except ShapeError:
+                    rk = None
+                real_r.append(mr if mr == rk else f"maybe_rank={mr} rank={rk}")
+            o = drv.ask_many("C13", [{"op": "rank", "shapes": shapes}])[0]
+            if "error" in o or o["rank"] != real_r:
+                note("bc", f"maybe_rank/rank: model {o.get('rank', o)} real {real_r}"[:400])
+            # from_simple / to_simple
+            simples = [None] + [list(p) for r in range(3) for p in itertools.product([0, 2, "N", "", None], repeat=r)]
+            real_s = []
+            Shape = internal(env.sh, "Shape")
+            for x in simples:
+                try:
+                    c = internal(Shape, "from_simple")(None if x is None else tuple(x)).to_simple()
+                    real_s.append([None if c is None else list(c)])
+                except Exception as e:  # noqa: BLE001
+                    real_s.append(type(e).__name__)
+            o = drv.ask_many("C13", [{"op": "simple", "shapes": simples}])[0]
+            if "error" in o or o["simple"] != real_s:
+                k = next((i for i in range(len(simples)) if "simple" in o and o["simple"][i] != real_s[i]), 0)
+                note("bc", f"from_simple({simples[k]}).to_simple(): model {o.get('simple', o)[k] if 'simple' in o else o} real {real_s[k]}")
+            ck.count(None, len(simples))
+
+    if "real_bc" in state:
+        guard("operand spellings of Shape.broadcast / can_broadcast", facet_shape_spellings)
+
+    def facet_broadcast_arity():
+        """0 / 1 / n operands where the signature takes them (numpy broadcasts any number of shapes)."""
+        lo, hi = broadcast_arity(env)
+        sp_stats["broadcast_arity"] = [lo, hi]
+        small = [sh for sh in shapes if sh is None or len(sh) <= 2]
+        n_cases = 0
+        for n_ops in (0, 2, 3):
+            if n_ops < lo or (hi is not None and n_ops > hi):
+                continue
+            for _ in range(ck.pick(150, 1500) if n_ops else 30):
+                shs = [rng.choice(small) for _ in range(n_ops + 1)]
+                spells = []
+                for sh in shs[1:]:
+                    ok_sp = [h for h in SHAPE_SPELLINGS if h not in UNDECLARED_SPELLINGS and not (h == "empty-str" and (sh is None or None not in sh))]
+                    spells.append(rng.choice(ok_sp))
+                for method in ("broadcast", "can_broadcast"):
+                    found = check_broadcast_n(env, shs, spells, method)
+                    n_cases += 1
+                    if found:
+                        ck.failure(found[0], found[1], {"check": "broadcast_n", "shapes": shs, "spells": spells, "method": method})
+        sp_stats["arity_cases"] = n_cases
+        ck.count(None, n_cases)
+
+    guard("Shape.broadcast arity", facet_broadcast_arity)
+
+    def facet_tensor_shape_spellings():
+        """Tensor(dtype, <shape in a simple spelling>) is the type of the tuple spelling, and round-trips."""
+        for e in E:
+            for sh in shapes:
+                ref = env.mk(["t", e, sh])
+                for how in ("list", "empty-str", "tensor.shape", "argument.shape"):
+                    try:
+                        t = env.mk(["t", e, sh, how])
+                    except NotApplicable:
+                        continue
+                    except Exception as ex:  # noqa: BLE001
+                        if how not in UNDECLARED_SPELLINGS:
+                            ck.broken("correspondence", "C13 Tensor refuses a spelling of a shape", f"Tensor({e}, {sh} as {how}): {type(ex).__name__}: {ex}")
+                        continue
+                    sp_stats["tensor_spellings"] += 1
+                    bad = check_roundtrip(env, ["t", e, sh, how])
+                    if bad and how not in UNDECLARED_SPELLINGS:
+                        ck.failure(bad[0], bad[1] + f" [shape written as {how}]", {"check": "roundtrip", "type": ["t", e, sh, how]})
+                    elif bad or t != ref or hash(t) != hash(ref):
+                        ck.broken("correspondence", "C13 the type depends on the spelling of the shape",
+                                  f"Tensor({e}, {sh} as {how}) = {t!r} vs {ref!r}: equal={t == ref}")
+        ck.count(None, sp_stats["tensor_spellings"])
+
+    guard("Tensor(dtype, shape spellings)", facet_tensor_shape_spellings)
+    ck.cov["operand_spellings"] = sp_stats
+
     # ---------------------------------------------------------------- ONNX forms: model toOnnx / fromOnnx vs the real ones
     def facet_onnx_forms():
         rt_ids, rt_real = [], []
@@ -947,7 +1340,10 @@ def run(ck: core.Check):
         f"exhaustive: all shapes of rank <= {R} over dims {DIMS} + unknown rank ({m} shapes, all {m * m} pairs) for "
         f"Shape.__le__/broadcast; all {n * n} ordered pairs of {n} types (2 element types x those shapes, 6 nestings of "
         f"depth <= 2 over rank <= {RN}, Type() wildcards, alias spellings) for _subtype; every spelling x 5 shapes + nestings "
-        "for the ONNX round trip; every ONNX code x 4 shapes for _from_onnx; all concrete shape pairs for numpy's rule. "
+        "for the ONNX round trip; every ONNX code x 4 shapes for _from_onnx; all concrete shape pairs for numpy's rule; "
+        "all ordered pairs of the shapes of rank <= 2 x 9 spellings of the operand (Shape object built four ways, tuple / None, "
+        "Tensor.shape, argument.type.shape, '' for anonymous dims, list) x 3 spellings of self for Shape.broadcast and can_broadcast; "
+        "== / hash over all ordered pairs of the types; cast(to=...) for every accepted spelling. "
         "non-trivial = one row of a pairwise sweep / one spelling / one type; the inline call boundary is seeded-random"
     )
     ck.assumptions += [
